@@ -7,6 +7,8 @@ import (
 	sdkmath "cosmossdk.io/math"
 	sdk "github.com/cosmos/cosmos-sdk/types"
 
+	ammtypes "github.com/elys-network/elys/x/amm/types"
+	ptypes "github.com/elys-network/elys/x/parameter/types"
 	perptypes "github.com/elys-network/elys/x/perpetual/types"
 	tstypes "github.com/elys-network/elys/x/tradeshield/types"
 )
@@ -196,19 +198,23 @@ func (h *History) c20Triggers() (spot map[uint64]string, perp map[uint64]string)
 	ctx := h.W.ReadCtx()
 	k := h.W.App.TradeshieldKeeper
 	for _, o := range h.Cur.SpotOrders {
-		mp, err := k.GetAssetPriceFromDenomInToDenomOut(ctx, o.OrderPrice.BaseDenom, o.OrderPrice.QuoteDenom)
-		if err != nil || mp.IsZero() {
+		ref := h.c20RefMarket(ctx, h.Cur, o.OrderPrice.BaseDenom, o.OrderPrice.QuoteDenom)
+		v := ref.verdict(o.OrderPrice.Rate, o.OrderType != tstypes.SpotOrderType_LIMITSELL)
+		if v == "no-price" {
 			spot[o.OrderId] = "no-price"
 			continue
 		}
-		ok := false
-		switch o.OrderType {
-		case tstypes.SpotOrderType_STOPLOSS, tstypes.SpotOrderType_LIMITBUY:
-			ok = mp.LTE(o.OrderPrice.Rate)
-		case tstypes.SpotOrderType_LIMITSELL:
-			ok = mp.GTE(o.OrderPrice.Rate)
+		tag := ""
+		if ref.PoolPriced {
+			tag = ", pool-priced"
+			h.Labels["c20-pool-priced-trigger-"+v]++
 		}
-		spot[o.OrderId] = fmt.Sprintf("%v (market %s vs rate %s, %s)", ok, mp, o.OrderPrice.Rate, o.OrderType)
+		// the module's own view, for the record only (it does not decide)
+		modv := "n/a"
+		if mp, err := k.GetAssetPriceFromDenomInToDenomOut(ctx, o.OrderPrice.BaseDenom, o.OrderPrice.QuoteDenom); err == nil {
+			modv = mp.String()
+		}
+		spot[o.OrderId] = fmt.Sprintf("%s (reference market %v vs rate %s, %s%s; the chain's own price helper says %s)", v, ref.Cands, o.OrderPrice.Rate, o.OrderType, tag, modv)
 	}
 	for _, o := range h.Cur.PerpOrders {
 		mp, err := h.W.App.PerpetualKeeper.GetAssetPrice(ctx, o.TradingAsset)
@@ -237,7 +243,7 @@ func CheckC20(h *History, blk *BlockRecord) []Violation {
 	// triggers evaluated on the state before this block were stored by the previous call
 	spotTrig, _ := h.Ext["c20-spot-trig"].(map[uint64]string)
 	perpTrig, _ := h.Ext["c20-perp-trig"].(map[uint64]string)
-	prevMarket, _ := h.Ext["c20-market"].(map[string]sdkmath.LegacyDec)
+	prevMarket, _ := h.Ext["c20-market"].(map[string]c20Ref)
 	defer func() {
 		s, p := h.c20Triggers()
 		h.Ext["c20-spot-trig"], h.Ext["c20-perp-trig"] = s, p
@@ -344,6 +350,13 @@ func CheckC20(h *History, blk *BlockRecord) []Violation {
 			}
 		}
 	}
+	// transactions that can move a pool's reserves (and with them a pool-derived market price) inside the block
+	poolMovers := 0
+	for _, tx := range blk.Txs {
+		if tx.Code == 0 && (strings.Contains(tx.MsgType, ".amm.") || strings.Contains(tx.MsgType, ".perpetual.") || strings.Contains(tx.MsgType, ".leveragelp.") || strings.Contains(tx.MsgType, ".masterchef.") || strings.Contains(tx.MsgType, ".commitment.")) {
+			poolMovers++
+		}
+	}
 	// orders that left the pending set
 	executedOwner := map[string]bool{}
 	for _, o := range prev.SpotOrders {
@@ -363,16 +376,15 @@ func CheckC20(h *History, blk *BlockRecord) []Violation {
 		if r, upd := newSpotRate[o.OrderId]; upd {
 			// the owner changed the rate earlier in this block: the condition is judged with the new rate
 			h.Labels["c20-executed-after-same-block-update"]++
-			if mp, ok := h.c20Market(o.OrderPrice.BaseDenom, o.OrderPrice.QuoteDenom, prevMarket); ok {
-				holds := mp.LTE(r)
-				if o.OrderType == tstypes.SpotOrderType_LIMITSELL {
-					holds = mp.GTE(r)
-				}
-				if !holds {
-					out = append(out, Violation{Sig: "C20/executed-without-trigger", Detail: fmt.Sprintf("spot order %d (%s) executed although market %s vs updated rate %s does not satisfy it (height %d)", o.OrderId, o.OrderType, mp, r, cur.Height)})
+			if ref, ok := prevMarket[o.OrderPrice.BaseDenom+"/"+o.OrderPrice.QuoteDenom]; ok && !(ref.PoolPriced && poolMovers > 0) {
+				if v := ref.verdict(r, o.OrderType != tstypes.SpotOrderType_LIMITSELL); v == "false" {
+					out = append(out, Violation{Sig: "C20/executed-without-trigger", Detail: fmt.Sprintf("spot order %d (%s) executed although the reference market %v vs updated rate %s does not satisfy it (height %d)", o.OrderId, o.OrderType, ref.Cands, r, cur.Height)})
 				}
 			}
-		} else if t := spotTrig[o.OrderId]; !strings.HasPrefix(t, "true") {
+		} else if t := spotTrig[o.OrderId]; strings.HasPrefix(t, "undecided") || (strings.Contains(t, "pool-priced") && poolMovers > 0) {
+			// a pool-derived price moves with every swap / join / exit of the block; such blocks are not judged
+			h.Labels["c20-execution-not-judged(pool-priced)"]++
+		} else if !strings.HasPrefix(t, "true") {
 			out = append(out, Violation{Sig: "C20/executed-without-trigger", Detail: fmt.Sprintf("spot order %d (%s) was executed although its trigger condition did not hold at the prices in force: %s (height %d)", o.OrderId, o.OrderType, t, cur.Height)})
 		}
 	}
@@ -505,25 +517,101 @@ func (h *History) wasAttempted(id uint64, perp bool) bool {
 	return m[fmt.Sprintf("%v/%d", perp, id)]
 }
 
-// c20MarketTable: market price base/quote for every ordered pair of funded denoms, at the
-// committed state (module's own price function).
-func (h *History) c20MarketTable() map[string]sdkmath.LegacyDec {
-	out := map[string]sdkmath.LegacyDec{}
-	ctx := h.W.ReadCtx()
-	for _, a := range h.W.Scenario.Denoms {
-		for _, b := range h.W.Scenario.Denoms {
-			if mp, err := h.W.App.TradeshieldKeeper.GetAssetPriceFromDenomInToDenomOut(ctx, a, b); err == nil {
-				out[a+"/"+b] = mp
+// c20Ref: the market price of one denom in another, computed by the harness itself – not through the amm /
+// tradeshield price helpers the execution path uses: a live oracle price (per base unit) where the asset has one;
+// for an asset without a feed, for every constant-product pool that holds it against the base currency, the
+// weighted spot ratio of that pool's reserves times the base currency's oracle price. Several pools give several
+// candidates (the chain picks "the best" one); a verdict is only drawn when all candidates agree.
+type c20Ref struct {
+	Cands      []sdkmath.LegacyDec
+	PoolPriced bool
+}
+
+func (h *History) c20RefUnitPrices(ctx sdk.Context, s *Snapshot, denom string) (out []sdkmath.LegacyDec, poolPriced bool) {
+	if p := h.W.App.OracleKeeper.GetAssetPriceFromDenom(ctx, denom); p.IsPositive() {
+		return []sdkmath.LegacyDec{p}, false
+	}
+	if denom == ptypes.BaseCurrency {
+		return nil, false
+	}
+	usdc := h.W.App.OracleKeeper.GetAssetPriceFromDenom(ctx, ptypes.BaseCurrency)
+	if !usdc.IsPositive() {
+		return nil, true
+	}
+	for _, p := range s.Pools {
+		if p.PoolParams.UseOracle {
+			continue
+		}
+		var a, b *ammtypes.PoolAsset
+		for i := range p.PoolAssets {
+			switch p.PoolAssets[i].Token.Denom {
+			case denom:
+				a = &p.PoolAssets[i]
+			case ptypes.BaseCurrency:
+				b = &p.PoolAssets[i]
+			}
+		}
+		if a == nil || b == nil || !a.Token.Amount.IsPositive() || !b.Token.Amount.IsPositive() || !a.Weight.IsPositive() || !b.Weight.IsPositive() {
+			continue
+		}
+		// units of base currency per unit of denom: (Bb/wb) / (Ba/wa)
+		spot := b.Token.Amount.ToLegacyDec().Quo(b.Weight.ToLegacyDec()).Quo(a.Token.Amount.ToLegacyDec().Quo(a.Weight.ToLegacyDec()))
+		out = append(out, spot.Mul(usdc))
+	}
+	return out, true
+}
+
+func (h *History) c20RefMarket(ctx sdk.Context, s *Snapshot, base, quote string) c20Ref {
+	pb, x := h.c20RefUnitPrices(ctx, s, base)
+	pq, y := h.c20RefUnitPrices(ctx, s, quote)
+	r := c20Ref{PoolPriced: x || y}
+	for _, b := range pb {
+		for _, q := range pq {
+			if q.IsPositive() {
+				r.Cands = append(r.Cands, b.Quo(q))
 			}
 		}
 	}
-	return out
+	return r
 }
 
-func (h *History) c20Market(base, quote string, table map[string]sdkmath.LegacyDec) (sdkmath.LegacyDec, bool) {
-	if table == nil {
-		return sdkmath.LegacyDec{}, false
+// verdict: "true" / "false" / "undecided" / "no-price" for a condition market <= rate (lte) or market >= rate.
+// Pool-derived candidates within 1e-9 (relative) of the rate are undecided: the chain multiplies and divides by the
+// base currency's price on the way, which moves the last digits.
+func (r c20Ref) verdict(rate sdkmath.LegacyDec, lte bool) string {
+	if len(r.Cands) == 0 {
+		return "no-price"
 	}
-	v, ok := table[base+"/"+quote]
-	return v, ok
+	yes, no := 0, 0
+	for _, mp := range r.Cands {
+		if r.PoolPriced {
+			if d := mp.Sub(rate).Abs(); d.LTE(rate.Abs().Mul(sdkmath.LegacyNewDecWithPrec(1, 9))) {
+				return "undecided"
+			}
+		}
+		if (lte && mp.LTE(rate)) || (!lte && mp.GTE(rate)) {
+			yes++
+		} else {
+			no++
+		}
+	}
+	switch {
+	case no == 0:
+		return "true"
+	case yes == 0:
+		return "false"
+	}
+	return "undecided"
+}
+
+// c20MarketTable: reference market base/quote for every ordered pair of funded denoms, at the committed state.
+func (h *History) c20MarketTable() map[string]c20Ref {
+	out := map[string]c20Ref{}
+	ctx := h.W.ReadCtx()
+	for _, a := range h.W.Scenario.Denoms {
+		for _, b := range h.W.Scenario.Denoms {
+			out[a+"/"+b] = h.c20RefMarket(ctx, h.Cur, a, b)
+		}
+	}
+	return out
 }
